@@ -1,6 +1,648 @@
-(* Engine A: the properties as boolean monitors over recorded traces. *)
+(* Engine A: the properties C01-C09 and C20 as boolean monitors over recorded
+   traces.  A monitor sees the operation, the library's calls on the fake
+   ClientConn, the return value and the observation read back afterwards; it
+   keeps its own small bookkeeping (published pickers, outstanding picks, the
+   key->channel table it believes in, last address list per connection).  It
+   never looks at model state, so it is meaningful on a trace the model rejects.
+   The same functions are extracted and run on traces of the Go implementation.
+
+   A "channel" is a pool slot (a subConnRef): the chain of connections linked by
+   refresh swaps. *)
 From GV Require Import Pool.Model Pool.Observe.
 Open Scope Z_scope.
 
-(* name, verdict, index of the first failing event (or the length) *)
-Definition pool_monitors (raw : option config) (o0 : obs) (tr : list event) : list (nat * bool) := [].
+(* ------------------------------------------------------------ helpers on obs *)
+Definition o_conn_state (o : obs) (c : N) : option cstate := aget (o_st o) c.
+
+Definition o_conn_ready (o : obs) (c : N) : bool :=
+  match o_conn_state o c with Some Ready => true | _ => false end.
+
+Definition o_slot (o : obs) (i : nat) : option slot := nth_error (o_slots o) i.
+
+(* channel i is READY: its current connection is in the pool and READY *)
+Definition o_slot_ready (o : obs) (i : nat) : bool :=
+  match o_slot o i with
+  | Some sl => o_conn_ready o (sl_conn sl) &&
+               match aget (o_refs o) (sl_conn sl) with Some j => Nat.eqb i j | None => false end
+  | None => false
+  end.
+
+Definition o_streams (o : obs) (i : nat) : Z :=
+  match o_slot o i with Some sl => sl_streams sl | None => 0 end.
+
+Fixpoint index_from {A} (p : A -> bool) (l : list A) (k : nat) : option nat :=
+  match l with
+  | [] => None
+  | x :: r => if p x then Some k else index_from p r (S k)
+  end.
+
+(* the slot whose current connection is c *)
+Definition o_slot_of_conn (o : obs) (c : N) : option nat :=
+  index_from (fun sl => N.eqb (sl_conn sl) c) (o_slots o) 0.
+
+Definition o_ready_slots (o : obs) : list nat :=
+  flat_map (fun kv => match snd kv with
+                      | Ready => match aget (o_refs o) (fst kv) with Some i => [i] | None => [] end
+                      | _ => []
+                      end) (o_st o).
+
+Definition o_pool_size (o : obs) : Z := Z.of_nat (length (o_refs o)).
+
+Definition subset_nat (a b : list nat) : bool := forallb (fun x => memnat x b) a.
+Definition same_set_nat (a b : list nat) : bool := subset_nat a b && subset_nat b a.
+
+Definition census_state (o : obs) : cstate :=
+  if existsb (fun kv => cstate_eqb (snd kv) Ready) (o_st o) then Ready
+  else if existsb (fun kv => cstate_eqb (snd kv) Connecting) (o_st o) then Connecting
+  else TransientFailure.
+
+(* ------------------------------------------------------------ bookkeeping *)
+Record mpick := mkMpick {
+  mp_slot : nat;
+  mp_cmd : cmd;
+  mp_key : N;
+  mp_hasctx : bool;
+  mp_locok : bool;
+  mp_deadline : option Z;
+  mp_cancelled : bool;
+  mp_started : Z;
+  mp_status : pstatus
+}.
+
+Record mstate := mkMstate {
+  ms_pubs : list picker;           (* every published picker, in order *)
+  ms_lastpub : option (cstate * picker);
+  ms_picks : list mpick;
+  ms_home : list (N * nat);        (* key -> channel it was bound on *)
+  ms_lastaddr : list (N * N);      (* connection -> last address list it was given *)
+  ms_connected : list (N * bool);  (* connection -> Connect() called since its last address change *)
+  ms_fail : bool;                  (* the harness' connection factory is failing *)
+  ms_raw : option (option config)  (* the configuration fixed by the first accepted resolver update *)
+}.
+
+Definition ms_init : mstate := mkMstate [] None [] [] [] [] false None.
+
+Definition eff (raw : option config) : config := effective raw.
+
+Definition method_of (raw : option config) (m : N) : option mcfg := aget (c_methods (eff raw)) m.
+
+Definition pick_cmd (raw : option config) (m : N) : cmd :=
+  match method_of raw m with Some mc => m_cmd mc | None => BOUND end.
+
+Definition pick_locok (raw : option config) (m : N) : bool :=
+  match method_of raw m with Some mc => m_locok mc | None => true end.
+
+(* the key a call carries: first key of the request, for BOUND/UNBIND methods
+   with a resolvable key path and the interceptor context; None = key error *)
+Definition pick_key (raw : option config) (m : N) (hasctx : bool) (reqkeys : list N) : option N :=
+  match method_of raw m with
+  | Some mc =>
+      if hasctx && (cmd_eqb (m_cmd mc) BOUND || cmd_eqb (m_cmd mc) UNBIND) then
+        if m_locok mc then Some (match reqkeys with k :: _ => k | [] => 0%N end) else None
+      else Some 0%N
+  | None => Some 0%N
+  end.
+
+Definition is_rr_bind (raw : option config) (m : N) : bool :=
+  cmd_eqb (pick_cmd raw m) BIND && c_rr (eff raw).
+
+Fixpoint outs_pubs (outs : list out) : list (cstate * picker) :=
+  match outs with
+  | [] => []
+  | OUpdateState st p :: r => (st, p) :: outs_pubs r
+  | _ :: r => outs_pubs r
+  end.
+
+Definition last_opt {A} (l : list A) (d : option A) : option A :=
+  match rev l with x :: _ => Some x | [] => d end.
+
+Definition set_status (p : mpick) (st : pstatus) (started : Z) : mpick :=
+  mkMpick (mp_slot p) (mp_cmd p) (mp_key p) (mp_hasctx p) (mp_locok p) (mp_deadline p) (mp_cancelled p) started st.
+
+Definition set_cancelled (p : mpick) : mpick :=
+  mkMpick (mp_slot p) (mp_cmd p) (mp_key p) (mp_hasctx p) (mp_locok p) (mp_deadline p) true (mp_started p) (mp_status p).
+
+Fixpoint track_addr (outs : list out) (la : list (N * N)) (cn : list (N * bool)) : list (N * N) * list (N * bool) :=
+  match outs with
+  | [] => (la, cn)
+  | ONewSC n a :: r => track_addr r (aset la n a) (aset cn n false)
+  | OUpdAddr n a :: r => track_addr r (aset la n a) (aset cn n false)
+  | OConnect n :: r => track_addr r la (aset cn n true)
+  | _ :: r => track_addr r la cn
+  end.
+
+Definition o_slot_in_pool (o : obs) (i : nat) : bool :=
+  match o_slot o i with
+  | Some sl => match aget (o_refs o) (sl_conn sl) with Some _ => true | None => false end
+  | None => false
+  end.
+
+Definition ms_with_picks (m : mstate) picks :=
+  mkMstate (ms_pubs m) (ms_lastpub m) picks (ms_home m) (ms_lastaddr m) (ms_connected m) (ms_fail m) (ms_raw m).
+Definition ms_with_home (m : mstate) home :=
+  mkMstate (ms_pubs m) (ms_lastpub m) (ms_picks m) home (ms_lastaddr m) (ms_connected m) (ms_fail m) (ms_raw m).
+Definition ms_with_fail (m : mstate) f :=
+  mkMstate (ms_pubs m) (ms_lastpub m) (ms_picks m) (ms_home m) (ms_lastaddr m) (ms_connected m) f (ms_raw m).
+
+(* the configuration in force during/after an event: fixed by the first
+   accepted resolver update (nil / wrong-type config = defaults) *)
+Definition raw_in_force (raw : option config) (ms : mstate) (o : op) : option config :=
+  match ms_raw ms with
+  | Some r => r
+  | None => match o with
+            | OpResolver _ CfgVal => raw
+            | OpResolver _ _ => None
+            | _ => raw
+            end
+  end.
+
+(* new bookkeeping after an event; [before]/[after] are the observations *)
+Definition track (raw : option config) (ms : mstate) (before : obs) (ev : event) (after : obs) : mstate :=
+  let pubs := outs_pubs (ev_out ev) in
+  let '(la, cn) := track_addr (ev_out ev) (ms_lastaddr ms) (ms_connected ms) in
+  let raw := raw_in_force raw ms (ev_op ev) in
+  let ms1 := mkMstate (ms_pubs ms ++ map snd pubs) (last_opt pubs (ms_lastpub ms)) (ms_picks ms) (ms_home ms) la cn (ms_fail ms)
+                      (match ms_raw ms with
+                       | Some r => Some r
+                       | None => if o_cfgset after then Some raw else None
+                       end) in
+  let ms2 :=
+    match ev_op ev with
+    | OpPick pi m hasctx reqkeys deadline cancelled =>
+        let mk i st := mkMpick i (pick_cmd raw m)
+                               (match pick_key raw m hasctx reqkeys with Some k => k | None => 0%N end)
+                               hasctx (pick_locok raw m) deadline cancelled (o_now after) st in
+        match ev_ret ev with
+        | RPicked n =>
+            match o_slot_of_conn after n with
+            | Some i => ms_with_picks ms1 (ms_picks ms1 ++ [mk i PPlaced])
+            | None => ms1
+            end
+        | RBlocked =>
+            let i := Z.to_nat (o_rr after mod Z.of_nat (length (o_slots after))) in
+            ms_with_picks ms1 (ms_picks ms1 ++ [mk i PBlocked])
+        | _ => ms1
+        end
+    | OpDone j oc replykeys =>
+        match nth_error (ms_picks ms1) j with
+        | Some p =>
+            let ms1' := ms_with_picks ms1 (upd_nth j (fun p => set_status p PFinished (mp_started p)) (ms_picks ms1)) in
+            match oc with
+            | DOk =>
+                match mp_cmd p with
+                | BIND =>
+                    if mp_hasctx p && mp_locok p && o_slot_in_pool before (mp_slot p)
+                    then ms_with_home ms1' (fold_left (fun h k => match aget h k with Some _ => h | None => aset h k (mp_slot p) end)
+                                                      replykeys (ms_home ms1'))
+                    else ms1'
+                | UNBIND => ms_with_home ms1' (adel (ms_home ms1') (mp_key p))
+                | BOUND => ms1'
+                end
+            | _ => ms1'
+            end
+        | None => ms1
+        end
+    | OpCancel j => ms_with_picks ms1 (upd_nth j set_cancelled (ms_picks ms1))
+    | OpFactory f => ms_with_fail ms1 f
+    | _ => ms1
+    end in
+  (* blocked picks that returned during this event *)
+  fold_left (fun m jn => ms_with_picks m (upd_nth (fst jn) (fun p => set_status p PPlaced (o_now after)) (ms_picks m)))
+            (ev_ub ev) ms2.
+
+(* ------------------------------------------------------------ per-event checks *)
+Definition nth_picker (ms : mstate) (pi : nat) : option picker := nth_error (ms_pubs ms) pi.
+
+Definition is_latest (ms : mstate) (pi : nat) : bool := Nat.eqb (S pi) (length (ms_pubs ms)).
+
+Definition conn_of_slot (o : obs) (i : nat) : option N :=
+  match o_slot o i with Some sl => Some (sl_conn sl) | None => None end.
+
+Definition ret_is_picked (r : ret) : bool := match r with RPicked _ => true | _ => false end.
+
+Definition ret_picked_eq (r : ret) (c : option N) : bool :=
+  match r, c with RPicked n, Some m => N.eqb n m | _, _ => false end.
+
+Definition mctx_done (now : Z) (p : mpick) : bool :=
+  mp_cancelled p || match mp_deadline p with Some d => d <=? now | None => false end.
+
+Definition has_newsc (outs : list out) : bool :=
+  existsb (fun o => match o with ONewSC _ _ | ONewSCFail _ => true | _ => false end) outs.
+
+Definition count_newsc (outs : list out) : nat :=
+  length (filter (fun o => match o with ONewSC _ _ | ONewSCFail _ => true | _ => false end) outs).
+
+Definition removes (outs : list out) : list N :=
+  flat_map (fun o => match o with ORemove n => [n] | _ => [] end) outs.
+
+Definition news (outs : list out) : list (N * N) :=
+  flat_map (fun o => match o with ONewSC n a => [(n, a)] | _ => [] end) outs.
+
+Definition eqb_slot_refresh (a b : slot) : bool := slot_refresh_eqb a b.
+
+(* --- C01 affinity --- *)
+Definition c01_state (ms : mstate) (o : obs) : bool :=
+  Nat.eqb (length (o_aff o)) (length (ms_home ms)) &&
+  forallb (fun kc => match aget (ms_home ms) (fst kc) with
+                     | Some i => match conn_of_slot o i with Some c => N.eqb c (snd kc) | None => false end
+                     | None => false
+                     end) (o_aff o).
+
+Definition c01_event (raw : option config) (ms : mstate) (before : obs) (ev : event) : bool :=
+  match ev_op ev with
+  | OpPick pi m hasctx reqkeys _ _ =>
+      let c := pick_cmd raw m in
+      if cmd_eqb c BOUND || cmd_eqb c UNBIND then
+        match pick_key raw m hasctx reqkeys with
+        | Some k =>
+            if N.eqb k 0 then true
+            else match aget (ms_home ms) k with
+                 | Some i =>
+                     if o_slot_ready before i then
+                       (* placed nowhere else; the most recent picker does place it there *)
+                       (if ret_is_picked (ev_ret ev) then ret_picked_eq (ev_ret ev) (conn_of_slot before i) else true) &&
+                       (if is_latest ms pi then ret_picked_eq (ev_ret ev) (conn_of_slot before i) else true)
+                     else if c_fallback (eff raw) then true       (* C08 *)
+                     else negb (ret_is_picked (ev_ret ev))
+                 | None => true   (* unknown key: C02 *)
+                 end
+        | None => true
+        end
+      else true
+  | _ => true
+  end.
+
+(* --- C02 load spreading --- *)
+Definition count_placed (picks : list mpick) (i : nat) : Z :=
+  Z.of_nat (length (filter (fun p => match mp_status p with PPlaced => Nat.eqb (mp_slot p) i | _ => false end) picks)).
+
+Definition c02_state (ms : mstate) (o : obs) : bool :=
+  forallb (fun i => o_streams o i =? count_placed (ms_picks ms) i) (seq 0 (length (o_slots o))).
+
+(* the call is routed by load: no key, or a key nobody is bound to, and not a round-robin BIND *)
+Definition by_load (raw : option config) (before : obs) (m : N) (hasctx : bool) (reqkeys : list N) : bool :=
+  negb (is_rr_bind raw m) &&
+  match pick_key raw m hasctx reqkeys with
+  | Some k => N.eqb k 0 || match aget (o_aff before) k with None => true | Some _ => false end
+  | None => false
+  end.
+
+Definition c02_event (raw : option config) (ms : mstate) (before : obs) (ev : event) : bool :=
+  match ev_op ev, ev_ret ev with
+  | OpPick pi m hasctx reqkeys _ _, RPicked n =>
+      if by_load raw before m hasctx reqkeys then
+        match nth_picker ms pi, o_slot_of_conn before n with
+        | Some (PSnap refs), Some i =>
+            memnat i refs && forallb (fun j => o_streams before i <=? o_streams before j) refs
+        | _, _ => false
+        end
+      else true
+  | _, _ => true
+  end.
+
+(* --- C03 pool size --- *)
+Definition c03_event (raw : option config) (ms : mstate) (before : obs) (ev : event) (after : obs) : bool :=
+  let e := eff raw in
+  (* size right after the first accepted resolver update *)
+  (match ev_op ev with
+   | OpResolver a _ =>
+       if negb (o_cfgset before) && o_cfgset after && negb (N.eqb a 0) && negb (ms_fail ms)
+       then o_pool_size after =? c_min e else true
+   | _ => true
+   end) &&
+  (* the bound *)
+  (if o_cfgset after && (c_min e <=? c_max e) then o_pool_size after <=? c_max e else true) &&
+  (* who may create connections, and when *)
+  (match ev_op ev with
+   | OpResolver _ _ => if has_newsc (ev_out ev) then o_pool_size before =? 0 else true
+   | OpResume _ =>
+       (* second critical section of a growing call: creation re-checks the size under the lock *)
+       if has_newsc (ev_out ev) then
+         match ev_ret ev with
+         | RNoSubConn =>
+             (o_pool_size before <? c_max e) &&
+             negb (existsb (fun kv => cstate_eqb (snd kv) Idle || cstate_eqb (snd kv) Connecting) (o_st before)) &&
+             Nat.eqb (count_newsc (ev_out ev)) 1
+         | _ => false
+         end
+       else true
+   | OpPick pi m hasctx reqkeys _ _ =>
+       if match ev_ret ev with RParked => true | _ => false end then
+         (* first critical section of a growing call (parked by the harness before newSubConn) *)
+         match nth_picker ms pi with
+         | Some (PSnap refs) =>
+             by_load raw before m hasctx reqkeys && (o_pool_size before <? c_max e) &&
+             forallb (fun j => c_wm e <=? o_streams before j) refs && negb (has_newsc (ev_out ev))
+         | _ => false
+         end
+       else
+       if has_newsc (ev_out ev) then
+         match ev_ret ev, nth_picker ms pi with
+         | RNoSubConn, Some (PSnap refs) =>
+             by_load raw before m hasctx reqkeys &&
+             (o_pool_size before <? c_max e) &&
+             negb (existsb (fun kv => cstate_eqb (snd kv) Idle || cstate_eqb (snd kv) Connecting) (o_st before)) &&
+             forallb (fun j => c_wm e <=? o_streams before j) refs &&
+             Nat.eqb (count_newsc (ev_out ev)) 1
+         | _, _ => false
+         end
+       else
+         (* at the maximum size a load-routed call is placed, even above the watermark *)
+         match nth_picker ms pi with
+         | Some (PSnap (_ :: _)) =>
+             if by_load raw before m hasctx reqkeys && (c_max e <=? o_pool_size before)
+             then ret_is_picked (ev_ret ev) else true
+         | _ => true
+         end
+   | OpDone _ _ _ => (count_newsc (ev_out ev) <=? 1)%nat     (* a replacement: C07 *)
+   | _ => negb (has_newsc (ev_out ev))
+   end) &&
+  (* removal only of the old connection of a completed refresh *)
+  (match removes (ev_out ev) with
+   | [] => true
+   | [old] =>
+       match ev_op ev with
+       | OpConnState sc Ready =>
+           match aget (o_refr before) sc with
+           | Some i => match conn_of_slot before i with Some c => N.eqb c old | None => false end
+           | None => false
+           end
+       | _ => false
+       end
+   | _ => false
+   end).
+
+(* --- C04 channel state --- *)
+Definition is_tf (s : cstate) : bool := cstate_eqb s TransientFailure.
+
+Definition c04_event (ms_before ms_after : mstate) (before : obs) (ev : event) (after : obs) : bool :=
+  (* last published pair matches the pool *)
+  (match ms_lastpub ms_after with
+   | Some (st, pk) =>
+       cstate_eqb st (census_state after) &&
+       Bool.eqb (match pk with PErr true => true | _ => false end) (is_tf st) &&
+       match pk with PErr false => false | _ => true end
+   | None => true
+   end) &&
+  (* a snapshot published in this event is exactly the READY channels *)
+  forallb (fun sp => match snd sp with
+                     | PSnap refs => same_set_nat refs (o_ready_slots after) && nodupnat refs
+                     | PErr _ => true
+                     end) (outs_pubs (ev_out ev)) &&
+  (* publication on every change of READY-ness / of the aggregate to or from
+     TRANSIENT_FAILURE.  Until the first state report is recorded (gb.state is
+     still its zero value Idle) the aggregate is the channel's initial state,
+     which is not TRANSIENT_FAILURE. *)
+  (let tf_before := if cstate_eqb (o_state before) Idle then false else is_tf (census_state before) in
+   let tf_after := if cstate_eqb (o_state after) Idle then false else is_tf (census_state after) in
+   if negb (same_set_nat (o_ready_slots before) (o_ready_slots after)) || negb (Bool.eqb tf_before tf_after)
+   then match outs_pubs (ev_out ev) with [] => false | _ => true end
+   else true).
+
+(* --- C05 no panics --- *)
+Definition c05_event (ev : event) : bool :=
+  match ev_ret ev with RPanic => false | _ => true end &&
+  forallb (fun jn => N.ltb (snd jn) 900000000) (ev_ub ev).
+
+(* --- C06 progress --- *)
+Definition c06_event (raw : option config) (ms_after : mstate) (ev : event) : bool :=
+  match ev_ret ev with RStuck => false | _ => true end &&
+  match ev_obs ev with
+  | None => false
+  | Some after =>
+      o_mufree after &&
+      (* only a round-robin BIND may wait, and only for its channel or its context *)
+      (match ev_op ev, ev_ret ev with
+       | OpPick _ m _ _ _ _, RBlocked => is_rr_bind raw m
+       | _, RBlocked => false
+       | _, _ => true
+       end) &&
+      forallb (fun p => match mp_status p with
+                        | PBlocked =>
+                            negb (mctx_done (o_now after) p) &&
+                            match conn_of_slot after (mp_slot p) with
+                            | Some c => negb (o_conn_ready after c)
+                            | None => false
+                            end
+                        | _ => true
+                        end) (ms_picks ms_after)
+  end.
+
+(* --- C07 unresponsive-connection refresh --- *)
+Definition window_ns (e : config) (rcnt : Z) : Z := 1000000 * (2 ^ rcnt * c_ums e).
+Definition window_in_range (e : config) (rcnt : Z) : bool := (rcnt <? 32) && (2 ^ rcnt * c_ums e <? W32).
+
+Definition c07_event (raw : option config) (ms : mstate) (before : obs) (ev : event) (after : obs) : bool :=
+  let e := eff raw in
+  (if o_cfgset after then Bool.eqb (o_undet after) ((0 <? c_ucalls e) && (0 <? c_ums e)) else negb (o_undet after)) &&
+  match ev_op ev with
+  | OpDone j oc _ =>
+      match nth_error (ms_picks ms) j with
+      | Some p =>
+          match o_slot before (mp_slot p), o_slot after (mp_slot p) with
+          | Some sb, Some sa =>
+              let now := o_now before in
+              let client_dl := match oc, mp_deadline p with
+                               | DDeadlineClient, Some d => d <=? now
+                               | _, _ => false
+                               end in
+              if negb (o_undet before) then
+                negb (has_newsc (ev_out ev)) && eqb_slot_refresh sb sa
+              else if negb client_dl then
+                (* any other completion is a response *)
+                negb (has_newsc (ev_out ev)) &&
+                (sl_last sa =? now) && (sl_de sa =? 0) && (sl_rcnt sa =? 0) &&
+                Bool.eqb (sl_refreshing sa) (sl_refreshing sb)
+              else if mp_started p <? sl_last sb then
+                negb (has_newsc (ev_out ev)) && eqb_slot_refresh sb sa
+              else
+                (sl_de sa =? (sl_de sb + 1) mod W32) && (sl_last sa =? sl_last sb) && (sl_rcnt sa =? sl_rcnt sb) &&
+                (if window_in_range e (sl_rcnt sb) then
+                   let trigger := (c_ucalls e <=? sl_de sb + 1) && (sl_last sb <? now - window_ns e (sl_rcnt sb)) &&
+                                  negb (sl_refreshing sb) in
+                   Bool.eqb (has_newsc (ev_out ev)) trigger
+                 else true) &&
+                (if has_newsc (ev_out ev) then
+                   Nat.eqb (count_newsc (ev_out ev)) 1 && negb (sl_refreshing sb) &&
+                   N.eqb (sl_conn sa) (sl_conn sb) &&            (* the old connection keeps serving *)
+                   match news (ev_out ev) with
+                   | [(n, _)] => sl_refreshing sa &&
+                                 match aget (o_refr after) n with Some i => Nat.eqb i (mp_slot p) | None => false end
+                   | _ => negb (sl_refreshing sa) && list_eqb nnat_eqb (o_refr before) (o_refr after)
+                   end
+                 else Bool.eqb (sl_refreshing sa) (sl_refreshing sb))
+          | _, _ => true
+          end
+      | None => true
+      end
+  | OpConnState sc Ready =>
+      match aget (o_refr before) sc with
+      | Some i =>
+          (* the replacement takes over the channel *)
+          match o_slot before i, o_slot after i with
+          | Some sb, Some sa =>
+              list_eqb N.eqb (removes (ev_out ev)) [sl_conn sb] &&
+              N.eqb (sl_conn sa) sc && (sl_aff sa =? sl_aff sb) && (sl_streams sa =? sl_streams sb) &&
+              negb (sl_refreshing sa) && (sl_de sa =? 0) && (sl_last sa =? o_now before) &&
+              (sl_rcnt sa =? (sl_rcnt sb + 1) mod W32) &&
+              match aget (o_refr after) sc with None => true | Some _ => false end &&
+              list_eqb nn_eqb (o_aff after) (rekey (o_aff before) (sl_conn sb) sc) &&
+              match aget (o_refs after) sc with Some i' => Nat.eqb i i' | None => false end &&
+              match aget (o_refs after) (sl_conn sb) with None => true | Some _ => false end &&
+              o_conn_ready after sc
+          | _, _ => false
+          end
+      | None => match removes (ev_out ev) with [] => true | _ => false end
+      end
+  | _ => match removes (ev_out ev) with [] => true | _ => false end
+  end.
+
+(* --- C08 fallback --- *)
+Definition c08_state (o : obs) : bool :=
+  forallb (fun kc => o_conn_ready o (snd kc) &&
+                     match aget (o_refs o) (snd kc) with Some _ => true | None => false end) (o_fb o).
+
+Definition c08_event (raw : option config) (ms : mstate) (before : obs) (ev : event) (after : obs) : bool :=
+  c08_state after &&
+  match ev_op ev with
+  | OpPick pi m hasctx reqkeys _ _ =>
+      (* fallback never changes the binding *)
+      list_eqb nn_eqb (o_aff before) (o_aff after) &&
+      let c := pick_cmd raw m in
+      if c_fallback (eff raw) && (cmd_eqb c BOUND || cmd_eqb c UNBIND) then
+        match pick_key raw m hasctx reqkeys with
+        | Some k =>
+            if N.eqb k 0 then true
+            else match aget (ms_home ms) k with
+                 | Some i =>
+                     if o_slot_ready before i then true     (* home READY: C01 sends it home *)
+                     else if is_latest ms pi then
+                       match aget (o_fb before) k with
+                       | Some sc => ret_picked_eq (ev_ret ev) (Some sc)         (* sticky stand-in *)
+                       | None =>
+                           match o_ready_slots before with
+                           | [] => negb (ret_is_picked (ev_ret ev))
+                           | _ => match ev_ret ev with
+                                  | RPicked n => o_conn_ready before n &&
+                                                 match aget (o_fb after) k with Some sc => N.eqb sc n | None => false end
+                                  | _ => false
+                                  end
+                           end
+                       end
+                     else match ev_ret ev with
+                          | RPicked n => o_conn_ready before n
+                          | _ => true
+                          end
+                 | None => true
+                 end
+        | None => true
+        end
+      else true
+  | _ => true
+  end.
+
+(* --- C09 round-robin BIND --- *)
+Definition c09_event (raw : option config) (ms_before ms_after : mstate) (before : obs) (ev : event) (after : obs) : bool :=
+  (match ev_op ev with
+   | OpPick pi m hasctx reqkeys deadline cancelled =>
+       match nth_picker ms_before pi with
+       | Some (PSnap (_ :: _)) =>
+           if is_rr_bind raw m then
+             let rr := (o_rr before + 1) mod W32 in
+             (o_rr after =? rr) &&
+             let i := Z.to_nat (rr mod Z.of_nat (length (o_slots before))) in
+             match conn_of_slot before i with
+             | Some c =>
+                 let done := cancelled || match deadline with Some d => d <=? o_now before | None => false end in
+                 if o_conn_ready before c || done
+                 then ret_picked_eq (ev_ret ev) (Some c)
+                 else match ev_ret ev with RBlocked => true | _ => false end
+             | None => false
+             end
+           else o_rr after =? o_rr before
+       | _ => o_rr after =? o_rr before
+       end
+   | _ => o_rr after =? o_rr before
+   end) &&
+  (* a waiting call is handed its channel's connection, and only once it is READY or its context ended *)
+  forallb (fun jn => match nth_error (ms_picks ms_before) (fst jn) with
+                     | Some p =>
+                         match mp_status p, conn_of_slot after (mp_slot p), nth_error (ms_picks ms_after) (fst jn) with
+                         | PBlocked, Some c, Some p' =>
+                             N.eqb c (snd jn) && (o_conn_ready after c || mctx_done (o_now after) p')
+                         | _, _, _ => false
+                         end
+                     | None => false
+                     end) (ev_ub ev).
+
+(* --- C20 resolver results --- *)
+Definition c20_event (ms_after : mstate) (before : obs) (ev : event) (after : obs) : bool :=
+  forallb (fun c => match aget (ms_lastaddr ms_after) c, aget (ms_connected ms_after) c with
+                    | Some a, Some true => N.eqb a (o_addrs after)
+                    | _, _ => false
+                    end) (akeys (o_refs after) ++ akeys (o_refr after)) &&
+  match ev_op ev with
+  | OpResolverErr =>
+      match ev_out ev with [] => true | _ => false end &&
+      match diff_obs before after with None => true | Some _ => false end
+  | OpResolver a _ =>
+      match ev_ret ev with
+      | RNone => N.eqb (o_addrs after) a
+      | _ => true
+      end
+  | _ => N.eqb (o_addrs after) (o_addrs before)
+  end.
+
+(* ------------------------------------------------------------ folding over a trace *)
+Inductive prop_id := P01 | P02 | P03 | P04 | P05 | P06 | P07 | P08 | P09 | P20.
+
+Definition event_ok (pid : prop_id) (raw : option config) (ms : mstate) (before : obs) (ev : event) : bool :=
+  match ev_obs ev with
+  | None =>
+      (* the history ended in this event (panic / stuck / lock held) *)
+      match pid with
+      | P05 => c05_event ev
+      | P06 => false
+      | _ => true
+      end
+  | Some after =>
+      let ms' := track raw ms before ev after in
+      let raw := raw_in_force raw ms (ev_op ev) in
+      match pid with
+      | P01 => c01_event raw ms before ev && c01_state ms' after
+      | P02 => c02_event raw ms before ev && c02_state ms' after
+      | P03 => c03_event raw ms before ev after
+      | P04 => c04_event ms ms' before ev after
+      | P05 => c05_event ev
+      | P06 => c06_event raw ms' ev
+      | P07 => c07_event raw ms before ev after
+      | P08 => c08_event raw ms before ev after
+      | P09 => c09_event raw ms ms' before ev after
+      | P20 => c20_event ms' before ev after
+      end
+  end.
+
+Fixpoint mon_from (pid : prop_id) (raw : option config) (ms : mstate) (before : obs) (tr : list event) : bool :=
+  match tr with
+  | [] => true
+  | ev :: r =>
+      event_ok pid raw ms before ev &&
+      match ev_obs ev with
+      | Some after => mon_from pid raw (track raw ms before ev after) after r
+      | None => true
+      end
+  end.
+
+Definition monitor (pid : prop_id) (raw : option config) (o0 : obs) (tr : list event) : bool :=
+  mon_from pid raw ms_init o0 tr.
+
+Definition C01_ok := monitor P01.
+Definition C02_ok := monitor P02.
+Definition C03_ok := monitor P03.
+Definition C04_ok := monitor P04.
+Definition C05_ok := monitor P05.
+Definition C06_ok := monitor P06.
+Definition C07_ok := monitor P07.
+Definition C08_ok := monitor P08.
+Definition C09_ok := monitor P09.
+Definition C20_ok := monitor P20.
